@@ -201,9 +201,13 @@ def _gen(rng):
     tree = ctg.ContractionTree.from_path(inputs, output, sd, ssa_path=random_tree_ssa(n, rng))
     if rng.random() < 0.5:
         tree.sort_contraction_indices()
+    if rng.random() < 0.3 and tree.size_dict:
+        tree.remove_ind_(rng.choice(sorted(tree.size_dict)))
     node = rng.choice(list(tree.children))
     return {"self": tree, "args": (node,), "describe": f"inputs={inputs} output={output} node={sorted(node)}"}
 
 
 axes.gen = _gen
 perm.gen = _gen
+axes.pre_must_hold = True  # inputs are real trees built through the public API
+perm.pre_must_hold = True
